@@ -436,9 +436,23 @@ def rule_fatlen(ctx, rep):
                             if u[0] == "call" and u[1] == "core::mem::size_of":
                                 sized_with.append(v)
 
+                    def _walk_mul(e, depth=0):
+                        if not isinstance(e, tuple) or depth > 40:
+                            return
+                        if e and e[0] == "call" and e[2] in ("checked_mul", "wrapping_mul", "saturating_mul", "overflowing_mul", "unchecked_mul") and len(e[3]) == 2:
+                            _len_factor(_strip_casts(_nobb(e[3][0])), _strip_casts(_nobb(e[3][1])))
+                        if e and e[0] == "bin" and str(e[1]).startswith("Mul"):
+                            _len_factor(_strip_casts(_nobb(e[2])), _strip_casts(_nobb(e[3])))
+                        for x in e:
+                            if isinstance(x, tuple):
+                                _walk_mul(x, depth + 1)
+
                     for bj, t2 in OB.calls():
                         if (atomics.callee_of(t2) or "").endswith(("::checked_mul", "::wrapping_mul", "::saturating_mul", "::overflowing_mul", "::unchecked_mul")) and len(t2["args"]) == 2:
                             _len_factor(_nobb(symx.expr(F, OB, t2["args"][0])), _nobb(symx.expr(F, OB, t2["args"][1])))
+                        elif atomics.callee_of(t2) in F.bodies and not balance.is_api(F, F.body(atomics.callee_of(t2))) and not t2["dest"]["p"]:
+                            # ... inside a private helper (`fn slice_size::<T>(len)`, `Self::value_size(len)`)
+                            _walk_mul(symx.normalize_calls(F, symx.local_expr(F, OB, t2["dest"]["l"], 0), _priv))
                     for bl2 in owner["blocks"]:
                         for s2 in bl2["stmts"]:
                             if s2["k"] == "assign" and s2["rv"]["k"] == "binop" and s2["rv"]["op"].startswith("Mul"):
@@ -560,6 +574,12 @@ def _strip_place(e, casts):
             e = ("proj", e[1], tuple(e[2][:-1])) if len(e[2]) > 1 else e[1]
         else:
             return e
+
+
+def _strip_casts(e):
+    while isinstance(e, tuple) and e and e[0] == "cast":
+        e = e[2]
+    return e
 
 
 def _flat_derefs(e):
